@@ -281,7 +281,8 @@ func suiteFuzzMode(seed uint64, n int, work string, sparse bool) {
 				cprof = "kv"
 			}
 		}
-		st.run(optLine(fmode, r.Intn(2), r.Intn(2), r.Intn(2), []int{100, 200, 1000}[r.Intn(3)]))
+		fseg := []int{100, 200, 1000}[r.Intn(3)]
+		st.run(optLine(fmode, r.Intn(2), r.Intn(2), r.Intn(2), fseg))
 		// some content first, so that calls reach the interesting code
 		st.run("begin w ?")
 		{
@@ -312,6 +313,16 @@ func suiteFuzzMode(seed uint64, n int, work string, sparse bool) {
 					emit("#SPEC panic in \"commit\" after %q in HintBPTSparseIdxMode", op)
 				}
 				st.run("rollback")
+			}
+			// the directory with such segments must open again
+			if !st.dead && st.db != nil {
+				st.run("close")
+				st.db, st.tx = nil, nil
+				ol := optLine(fmode, r.Intn(2), r.Intn(2), r.Intn(2), fseg)
+				if st.run(ol) != "ok" {
+					emit("#SPEC open-failed after segments filled by %q only (HintBPTSparseIdxMode): %s", op, st.lastOpenErr)
+					continue
+				}
 			}
 		}
 		for j := 0; j < 60 && !st.dead; j++ {
